@@ -33,8 +33,8 @@ Definition kids (t : tree) (a : attr) : list tree :=
 Definition set_kids (t : tree) (a : attr) (cs : list tree) : tree :=
   match t, a with T l _ o, Body => T l cs o | T l b _, Orelse => T l b cs end.
 
-Definition edge := (attr * nat)%type.
-Definition path := list edge.
+Notation edge := (attr * nat)%type (only parsing).
+Notation path := (list (attr * nat)) (only parsing).
 
 Definition edge_eqb (x y : edge) : bool := attr_eqb (fst x) (fst y) && (snd x =? snd y).
 Fixpoint path_eqb (p q : path) : bool :=
@@ -411,7 +411,7 @@ Definition forward_move (t : tree) (bp : path) (ba : attr) (lo hi : nat) (gp0 : 
               match plast s1, plast s2 with
               | Some (a1, i1), Some (a2, i2) =>
                   if path_eqb (pinit s1) (pinit s2) && attr_eqb a1 a2 && (i1 <=? i2)
-                  then Ok (CBlock (pinit s1) a i1 (i2 + 1))       (* _attr is NOT updated *)
+                  then Ok (CBlock (pinit s1) a1 i1 (i2 + 1))      (* _attr=attr1 *)
                   else Crash                                       (* AssertionError *)
               | _, _ => Crash
               end))))
@@ -508,7 +508,7 @@ Definition valid_editb (t : tree) (e : edit) : bool :=
   | EInsert gp _ _ => valid_gapb t gp
   | EWrap p a lo hi _ _ _ => valid_blockb t p a lo hi
   | EMove p a lo hi gp _ _ =>
-      valid_blockb t p a lo hi && valid_gapb t gp && negb (gap_under_block p a lo hi gp) &&
+      inb_blockb t p a lo hi && valid_gapb t gp && negb (gap_under_block p a lo hi gp) &&
       move_redirect_ok t p a lo hi gp
   | ENop => true
   end.
